@@ -6,6 +6,7 @@ import (
 
 	"verif/sim/internal/common"
 	"verif/sim/internal/enga"
+	"verif/sim/internal/engb"
 	"verif/sim/internal/engc"
 )
 
@@ -18,6 +19,8 @@ func runCheck(prop, tier string) int {
 		return engc.Check(prop, tier)
 	case "C03", "C04":
 		return enga.Check(prop, tier)
+	case "C16":
+		return engb.Check(tier)
 	}
 	fmt.Fprintf(os.Stderr, "no engine for %s\n", prop)
 	return 2
@@ -31,6 +34,8 @@ func runReplay(path string) int {
 		return engc.Replay(r)
 	case "A":
 		return enga.Replay(r)
+	case "B":
+		return engb.Replay(r)
 	}
 	fmt.Fprintf(os.Stderr, "unknown engine %q in replay file\n", r.Engine)
 	return 2
